@@ -13,6 +13,12 @@
 //   edit   every proper prefix and every single-byte delete/replace/insert (structural alphabet) of a document, each run
 //          through check_text: only parse_error/out_of_range escape, entry points agree, and whenever the edited text is
 //          itself a standard document inside the domain it must be read as the reference reads it.
+//   seq    a stream of texts (documents, proper prefixes, single-byte edits, unstructured bytes; a third of the streams made
+//          of documents nested up to 500 deep) parsed one after the other on one thread, two thirds through the reader entry
+//          point only: only parse_error/out_of_range escape, and every text that is a standard document inside the domain
+//          is accepted with the reference value and extent whatever was parsed or rejected before it.
+#include <thread>
+
 #include <phosg/JSON.hh>
 
 #include "c05/oracle.hh"
@@ -68,7 +74,40 @@ static Tok gen_int_tok() {
   return t;
 }
 
+// Un-normalised mantissa. JSON does not require 1 <= m < 10: "0.001e310" (= 1e307) and "12345678901234567890e-325"
+// (= 1.2e-306) are numbers within double range although the exponent ALONE is beyond what a double's exponent can hold.
+// The numeral has at most 40 digits and a 3-digit exponent chosen so that the VALUE lies within 1e-290..1e291.
+static std::string gen_unnormalised_num() {
+  std::string s = vg::chance(1, 3) ? "-" : "";
+  int64_t mag; // decimal exponent of the mantissa's leading significant digit
+  if (vg::coin()) {
+    size_t id = 2 + vg::below(37); // integer part of 2..38 digits
+    s += digits(id, true);
+    mag = static_cast<int64_t>(id) - 1;
+    if (vg::chance(1, 3)) s += "." + digits(1 + vg::below(2), false);
+  } else {
+    size_t z = vg::below(36); // 0.<z zeros><significant digits>
+    s += "0." + std::string(z, '0') + static_cast<char>('1' + vg::below(9)) + digits(vg::below(4), false);
+    mag = -static_cast<int64_t>(z) - 1;
+  }
+  int64_t lo = -290 - mag, hi = 290 - mag, e;
+  switch (vg::below(4)) {
+    case 0: e = lo + static_cast<int64_t>(vg::below(45)); break; // value near 1e-290
+    case 1: e = hi - static_cast<int64_t>(vg::below(45)); break; // value near 1e290
+    case 2: e = -mag + vg::range(-3, 3); break; // value near 1
+    default: e = vg::range(lo, hi);
+  }
+  if (e < lo) e = lo;
+  if (e > hi) e = hi;
+  s += vg::coin() ? "e" : "E";
+  if (e < 0) s += "-";
+  else if (vg::coin()) s += "+";
+  s += std::to_string(e < 0 ? -e : e);
+  return s;
+}
+
 static Tok gen_num_tok() {
+  if (vg::chance(1, 6)) return Tok{T_NUM, gen_unnormalised_num()};
   static const std::vector<std::string> specials = {"5e-1", "25e-1", "1E+2", "1e5", "0.5", "-0.0", "0e0", "1.25E-3", "12345678901234567890.5",
       "1e22", "123e20", "100e-2", "9223372036854775807e0", "9223372036854775808.0", "1e19", "1.0", "0.1e1", "-5e-1", "1e-5", "2.5E+10",
       "0.000001", "1234567890123456789012345.5", "3e0", "7E-0", "0.0e+5", "1e300", "1e-300", "-1.5e+299", "6.02214076e23", "1e1", "10e-1",
@@ -402,6 +441,123 @@ static void run_edit(const Case& c) {
   if (ref.ok && ref.has_container && doc.size() >= 6) x.nontrivial_case();
 }
 
+// ---------------------------------------------------------------- seq
+// A stream of texts parsed one after the other on ONE thread (the way a consumer pulls values from readers and tolerates
+// bad ones): the value of a standard document is a function of its text, whatever was parsed - or rejected - before it.
+// case: s = [text...], n = [per text: bit0 strict, bits1-2 entry point]. The whole stream runs on a fresh thread so that
+// the case is self-contained (its prelude is part of it) even if the parser keeps per-thread state.
+
+static bool long_exponent(const std::string& t) {
+  const char* why = nullptr;
+  return c5::out_of_scope(reinterpret_cast<const uint8_t*>(t.data()), t.size(), &why) && why[0] == 'e';
+}
+
+static std::vector<c5::Outcome> run_stream(const Case& c) {
+  std::vector<c5::Outcome> out(c.s.size());
+  std::exception_ptr err;
+  std::thread th([&] {
+    try {
+      for (size_t k = 0; k < c.s.size(); k++) {
+        uint64_t f = c.u(k);
+        out[k] = c5::run_parse(c.s[k], f & 1, static_cast<c5::Entry>((f >> 1) & 3));
+      }
+    } catch (...) {
+      err = std::current_exception();
+    }
+  });
+  th.join();
+  if (err) std::rethrow_exception(err);
+  return out;
+}
+
+static void run_seq(const Case& c) {
+  if (c.s.empty() || c.s.size() > 4096 || c.n.size() != c.s.size()) throw std::logic_error("seq case: bad shape");
+  size_t total = 0;
+  for (size_t k = 0; k < c.s.size(); k++) {
+    if (((c.u(k) >> 1) & 3) > 2) throw std::logic_error("seq case: bad entry point");
+    if (long_exponent(c.s[k])) throw std::logic_error("seq case: exponent of more than 3 digits");
+    total += c.s[k].size();
+  }
+  if (total > (4u << 20)) throw std::logic_error("seq case: too long");
+  std::vector<c5::Outcome> out = run_stream(c);
+  bool reader_only = true, rejected_before = false, accepted_after_reject = false;
+  for (size_t k = 0; k < c.s.size(); k++) {
+    const std::string& text = c.s[k];
+    bool strict = c.u(k) & 1;
+    c5::Entry en = static_cast<c5::Entry>((c.u(k) >> 1) & 3);
+    if (en != c5::READER) reader_only = false;
+    const char* mode = strict ? "strict" : "default";
+    const char* ename = en == c5::READER ? "reader" : en == c5::PTR ? "ptr,size" : "string";
+    const c5::Outcome& o = out[k];
+    VCHECK(o.kind != c5::Outcome::OTHER, "exception-type:" + o.exc_type, "text #", k, " of the stream (", ename, ", ", mode, "): ", o.what, " on ", c5::clip(text));
+    if (en == c5::READER) VCHECK(o.where <= o.size, "reader-position", "text #", k, " of the stream: reader at ", o.where, " of ", o.size);
+    rj::Result ref = rj::parse_document(text, 600);
+    if (ref.in_domain()) {
+      std::string cls = c5::subdoc_class(text.substr(ref.value_begin, ref.value_end - ref.value_begin));
+      VCHECK(!o.threw(), cat("stream:rejects-standard-document:", ename, ":", mode, rejected_before ? ":after-a-rejected-text" : ""), "text #", k, " of ", c.s.size(),
+          " parsed one after the other on one thread is a standard document and is rejected (", o.what, "): ", c5::clip(text));
+      jt::Diff d = jt::diff(o.value, ref.value, jt::NUMERIC_REL_1E9);
+      VCHECK(d.none(), cat("stream:value:", d.cls, ":", mode), "text #", k, " of the stream (", ename, "): value differs from the reference at ", d.text, " for ", c5::clip(text));
+      if (en == c5::READER) VCHECK(o.where == ref.value_end, cat("stream:reader-extent:", mode, ":", cls), "text #", k, " of the stream: reader stopped at ", o.where, ", the value ends at ", ref.value_end, " in ", c5::clip(text));
+      if (rejected_before) accepted_after_reject = true;
+    }
+    if (o.threw()) rejected_before = true;
+  }
+  Ctx& x = ctx();
+  x.count(c.s.size() - 1);
+  x.cls(reader_only ? "seq:reader-entry-point-only" : "seq:mixed-entry-points");
+  x.cls("seq:texts", c.s.size());
+  if (accepted_after_reject) {
+    x.cls("seq:standard-document-read-after-a-rejected-text");
+    x.nontrivial_case();
+  }
+}
+
+static std::string gen_seq_text(bool deep_theme) {
+  std::string doc;
+  unsigned b = vg::below(10);
+  if (deep_theme ? b < 8 : b < 2) doc = gen_nested(vg::chance(1, 3) ? 500 : 2 + vg::below(499));
+  else doc = render(gen_doc_tokens(2 + static_cast<int>(vg::scaled(12)), 4));
+  switch (vg::below(8)) {
+    case 0:
+    case 1:
+    case 2: break; // the document itself
+    case 3:
+    case 4:
+    case 5: doc = doc.substr(0, vg::below(doc.size())); break; // a proper prefix
+    case 6: { // one single-byte edit
+      const std::string& a = c5::edit_alphabet();
+      size_t at = vg::below(doc.size());
+      char ch = a[vg::below(a.size())];
+      switch (vg::below(3)) {
+        case 0: doc.erase(at, 1); break;
+        case 1: doc[at] = ch; break;
+        default: doc.insert(at, 1, ch);
+      }
+      break;
+    }
+    default: doc = vg::coin() ? vg::bytes(vg::below(12)) : vg::bytes_from("{}[],:\"\\019-.eEntf a", vg::below(16));
+  }
+  if (long_exponent(doc)) doc = "["; // outside the stated domain (only makes the scanner loop)
+  return doc;
+}
+
+static Case gen_seq() {
+  Case c("seq");
+  size_t n = 2 + vg::scaled(22);
+  bool deep_theme = vg::chance(1, 3);
+  bool reader_only = vg::chance(2, 3);
+  for (size_t k = 0; k < n; k++) {
+    uint64_t entry = reader_only ? 0 : vg::pick<uint64_t>({0, 0, 0, 1, 2});
+    c.N(vg::below(2) | (entry << 1));
+    // a stream ends in documents that must be read
+    bool tail = k + 2 >= n;
+    if (tail && vg::coin()) c.S(deep_theme ? gen_nested(vg::chance(1, 2) ? 500 : 1 + vg::below(500)) : render(gen_doc_tokens(2 + static_cast<int>(vg::scaled(12)), 4)));
+    else c.S(gen_seq_text(deep_theme));
+  }
+  return c;
+}
+
 static const char* kSeedDocs[] = {
     "null", "true", "false", "\"\"", "\"v\"", "\"no special chars\"", "\"omg \\\"'\\\\\\t\\n\"", "0", "134", "-3214", "0.0", "1.4", "-10.5",
     "[]", "[1]", "{}", "{\"one\":1}", "[1,2.5e-3,\"x\\n\\u00e9\"]", "{\"a\":[1,{\"b\":null}],\"c\":{}}", "5e-1", "25e-1", "1E+2", "-0", "-0.0e-0",
@@ -454,7 +610,60 @@ static void enum_doc(Enum& e) {
     }
     e.exec(Case("doc").S("").S(od + "{}" + cd).S("\n").S(",").S("]"));
   }
-  e.complete("fixed documents x 6 suffixes; bracket nesting 100, 499 and 500");
+  // un-normalised mantissas: every mantissa scale 1e-36..1e37 x value scales from 1e-290 to 1e290 (the exponent alone runs to +-327)
+  static const int kValueScale[] = {-290, -250, -100, -20, -1, 0, 1, 20, 100, 250, 290};
+  for (int mag = -36; mag <= 37 && !e.stop; mag++) {
+    if (!e.mine(idx++)) continue;
+    std::string m = mag >= 0 ? "1" + std::string(mag, '0') : "0." + std::string(-mag - 1, '0') + "1";
+    if (mag >= 0 && (mag % 3) == 1) m += ".5";
+    for (int t : kValueScale) {
+      int ex = t - mag;
+      std::string num = ((mag + t) % 2 ? "-" : "") + m + ((mag % 2) ? "e" : "E") + (ex < 0 ? "-" : (t % 2) ? "+" : "") + std::to_string(ex < 0 ? -ex : ex);
+      e.exec(Case("doc").S("").S(num).S("").S(",").S("@"));
+      e.exec(Case("doc").S(" ").S("[" + num + ",{\"a\":" + num + "}]").S("\n").S("]").S("}"));
+    }
+  }
+  e.complete("fixed documents x 6 suffixes; bracket nesting 100, 499 and 500; un-normalised numerals 1e-36..1e37 (mantissa) x 11 value scales 1e-290..1e290");
+}
+
+static void enum_seq(Enum& e) {
+  uint64_t idx = 0;
+  size_t n = sizeof(kSeedDocs) / sizeof(kSeedDocs[0]);
+  // every truncation of valid documents, presented as one stream to the reader entry point and followed by the documents
+  // themselves (and by documents nested to the stated bound)
+  for (int strict = 0; strict < 2 && !e.stop; strict++) {
+    for (uint64_t entry_mix = 0; entry_mix < 2; entry_mix++) {
+      if (!e.mine(idx++)) continue;
+      Case c("seq");
+      uint64_t j = 0;
+      auto flags = [&]() -> uint64_t { return strict | ((entry_mix && (j++ % 7) == 6 ? 1 + (j % 2) : 0) << 1); };
+      for (size_t k = 0; k < n; k++) {
+        std::string d = kSeedDocs[k];
+        for (size_t cut = 0; cut < d.size(); cut++) c.N(flags()).S(d.substr(0, cut));
+      }
+      for (size_t k = 0; k < n; k++) c.N(flags()).S(kSeedDocs[k]);
+      e.exec(c);
+    }
+  }
+  for (size_t depth : {20, 100, 500}) {
+    for (int dict = 0; dict < 2 && !e.stop; dict++) {
+      if (!e.mine(idx++)) continue;
+      std::string open, close;
+      for (size_t k = 0; k < depth; k++) {
+        open += dict ? "{\"a\":" : "[";
+        close += dict ? "}" : "]";
+      }
+      std::string d = open + (dict ? "{}" : "[]") + close;
+      Case c("seq");
+      // depth 500: about 60 evenly spaced prefixes keep the case below 100 KiB
+      size_t step = depth > 100 ? d.size() / 60 : 1;
+      for (size_t cut = 1; cut < d.size(); cut += step) c.N(dict).S(d.substr(0, cut));
+      for (const char* v : {"[]", "{}", "[1,2]", "{\"a\":[]}", "5e-1"}) c.N(dict).S(v);
+      c.N(dict).S(d);
+      e.exec(c);
+    }
+  }
+  e.complete(cat("streams on one thread: every proper prefix of ", n, " fixed documents followed by the documents (reader entry point only / with string entry points mixed in, default and strict); every (for depth 500: 60 evenly spaced) proper prefix of documents nested 20/100/500 deep followed by small documents and the nested document"));
 }
 
 int main(int argc, char** argv) {
@@ -462,5 +671,6 @@ int main(int argc, char** argv) {
   checks.push_back({"doc", run_doc, gen_doc, 24000, 480000, 100, enum_doc});
   checks.push_back({"ext", run_ext, gen_ext, 12000, 300000, 100, nullptr});
   checks.push_back({"edit", run_edit, gen_edit, 480, 8000, 100, enum_edit});
+  checks.push_back({"seq", run_seq, gen_seq, 2400, 60000, 100, enum_seq});
   return main_(argc, argv, checks);
 }
